@@ -75,6 +75,13 @@ func (fr *Frame) callValue(in ssa.CallInstruction, c *ssa.CallCommon, fv Val, ar
 	}
 	if fn.Pkg == ex.prog.SSA || fn.Parent() != nil && fn.Parent().Pkg == ex.prog.SSA {
 		key := fn.RelString(ex.prog.SSA.Pkg)
+		if fc := ex.ctr.Funcs[key]; fc != nil && fc.Kind == "func" && !(fr.top && fn == fr.fn) && !fc.ModDeclared && !fc.Trusted {
+			// a contract without a modifies clause says nothing about the frame: callers see the body instead
+			if len(fn.Blocks) == 0 {
+				panic(oos("contract of %s has no modifies clause and the function cannot be inlined", key))
+			}
+			return fr.inline(in, fn, args, binds, rt)
+		}
 		if fc := ex.ctr.Funcs[key]; fc != nil && fc.Kind == "func" && !(fr.top && fn == fr.fn) {
 			if fc.Trusted {
 				ex.assumed["func "+key+" (trusted contract: "+fc.TrustReason+")"] = true
@@ -578,6 +585,24 @@ func (fr *Frame) applyContract(in ssa.CallInstruction, key string, fc *FuncContr
 			res = vals[0]
 		} else {
 			res = Val{K: VTuple, Fs: vals}
+		}
+	}
+	for _, n := range fc.Fresh {
+		if tv, ok := env2.vars[n]; ok {
+			var r string
+			switch tv.V.K {
+			case VPtr:
+				r = ptrRef(tv.V.P)
+			case VIface:
+				r = tv.V.Fs[1].T
+			case VSlice:
+				r = tv.V.Fs[0].T
+			case VInt:
+				r = tv.V.T
+			}
+			if r != "" {
+				fr.assume(mkOr(mkEq(r, "0"), mkApp(">", r, ex.get(old, allocKey, SInt))))
+			}
 		}
 	}
 	for _, c := range fc.Ensures {
